@@ -149,6 +149,23 @@ TEXT = {
           "enoughPlasma over ledger states is covered by correspondence only.",
   "technique": "Lean 4 proof (omega/induction) + regenerated constants + differential correspondence",
  },
+ "C13": {
+  "text": "Kernel-checked theorems over a byte-exact model of AccountBlock.ComputeHash / Momentum.ComputeHash (hash "
+          "function as parameter): the pre-image determines every covered field for all amounts >= 0 (the sign is the one "
+          "thing lost: negative witness), equal hashes of hash-consistent blocks give equal covered fields recursively "
+          "through descendants, momentums likewise incl. content list and ChangesHash; protobuf: Proto/DeProto round trip, "
+          "proto3 wire encoder/decoder round trip for AccountBlockProto (nested descendants) and MomentumProto, "
+          "Deserialize(Serialize(b)) = b; JSON amount / nonce text forms; generic RLP item round trip. Field order, "
+          "encoders, struct-field coverage, protobuf schema, Proto()/DeProto() assignments, the verifier's amount bound and "
+          "the re-packing of call data are regenerated from the AST / live types of the tree and compared by theorems; "
+          "models tied by a differential stream on pre-image, Serialize(), Deserialize (also on re-arranged wire forms), "
+          "RLP and text-form bytes plus Go-side round-trip and one-field-alteration monitors.",
+  "design_ref": "§3 C13",
+  "note": "Hash function is a parameter; T2 (stored bytes are a function of covered fields and state) and the two-node "
+          "`variants` stream are not built in this round; typed RLP decoding and JSON object structure are covered by "
+          "Go-side round-trip monitors, T4 by an AST fact plus monitors (no Lean model of the ABI).",
+  "technique": "Lean 4 proof (induction/omega/decide) + regenerated AST facts + differential correspondence",
+ },
  "C18": {
   "text": "Kernel-checked theorems that GetRange is the statement's slice for all (index,count,len), pages tile the "
           "list and each element lies on exactly one page; model tied by a differential stream over the full uint32 range.",
